@@ -397,6 +397,28 @@ func resolveScratch(run *encRun, items []bufItem) []bufItem {
 			l0, ok0 := old.Args[1].Int64()
 			h0, ok1 := old.Args[2].Int64()
 			if ok0 && ok1 && l0 == lo && h0 == lo && sym.Eq(length, ev.Result) {
+				// the window holds this writer's bytes only if no other writer of the run touches it: a number takes up
+				// to four bytes from where its window starts
+				overlap := false
+				for _, ev2 := range run.in.Events {
+					if ev2 == ev || ev2.Kind != "encode" || len(ev2.Args) < 3 || ev2.Args[2] == nil {
+						continue
+					}
+					o2 := ev2.Args[2]
+					for o2.Op == "conv" {
+						o2 = o2.Args[0]
+					}
+					if o2.Op != "slice" || o2.Args[0].Key() != it.Val.Args[0].Key() {
+						continue
+					}
+					l2, okl := o2.Args[1].Int64()
+					if !okl || (l2 < lo+4 && lo < l2+4) {
+						overlap = true
+					}
+				}
+				if overlap {
+					break
+				}
 				out = append(out, bufItem{"enc:" + ev.Callee, ev.Args[1]})
 				replaced = true
 				break
